@@ -171,10 +171,10 @@ def run_options(ctx, h):
 # Inputs only: words are [k, o, v] with v a list of atoms of the specification's vocabulary (spec/FzfOptions.tla,
 # spec/FzfBind.tla); RND stands for an arbitrary text that python makes up and the specification treats as opaque.
 RND = "\\RND"
-NUM = {"0", "1", "2", "3", "5", "8", "10", "50", "99", "100", "255", "256", "1000", "-1"}
+NUM = {"0", "1", "2", "3", "5", "8", "10", "30", "40", "50", "60", "80", "99", "100", "255", "256", "1000", "-1"}
 FLAGS = ["--no-multi", "+m", "--no-sort", "+s", "--cycle", "--no-cycle", "--tac", "--no-tac", "-e", "--exact", "+e",
          "--no-exact", "-i", "--ignore-case", "+i", "--no-ignore-case", "--smart-case", "--no-expect", "--no-history",
-         "--no-height", "--no-border", "--help", "-h", "--version", "--"]
+         "--no-height", "--no-border", "--no-tmux", "--help", "-h", "--version", "--"]
 FREE = ["--query", "--filter", "--prompt", "--delimiter"]          # any text is a valid value
 SHORT = {"--query": "-q", "--filter": "-f", "--delimiter": "-d", "--nth": "-n", "--multi": "-m", "--sort": "-s"}
 CURATED = {
@@ -184,11 +184,13 @@ CURATED = {
                    ["length", ",", "length"], ["bogus"], ["chunk", ",", "length", ",", "begin", ",", "end"], [],
                    ["pathname", ",", "begin", ",", "end", ",", "index"]],
     "--scheme": [["default"], ["path"], ["history"], ["bogus"], []],
-    "--nth": [["1"], ["2", ".."], [".."], ["1", ",", "-1"], ["1", "..", "3"], ["0"], ["a"], ["-1", "..", "2"]],
-    "--height": [["50", "%"], ["10"], ["~", "10"], ["-1"], ["256", "%"], ["~", "-1"], ["a"], ["~", "100", "%"]],
+    "--nth": [["1"], ["2", ".."], [".."], ["1", ",", "-1"], ["1", "..", "3"], ["0"], ["a"], ["-1", "..", "2"], ["..", "2"],
+              ["-1"]],
+    "--height": [["50", "%"], ["10"], ["~", "10"], ["-1"], ["256", "%"], ["~", "-1"], ["a"], ["~", "100", "%"], ["-1", "%"]],
     "--history": [["@T/h1"], ["@T/h2"], []],
     "--history-size": [["2"], ["5"], ["0"], ["a"], ["-1"], ["1000"]],
-    "--walker": [["file"], ["dir", ",", "hidden"], ["hidden"], ["bogus"], ["file", ",", ",", "follow"]],
+    "--walker": [["file"], ["dir", ",", "hidden"], ["hidden"], ["bogus"], ["file", ",", ",", "follow"],
+                 ["file", ",", "dir", ",", "follow", ",", "hidden"]],
     "--tabstop": [["2"], ["0"], ["a"], ["8"]],
     "--pointer": [[">"], ["a", "x", "a"], [], ["a", "x"]],
     "--preview-window": [["up"], ["hidden"], ["up", ",", "hidden"], ["10", "%"], ["default"], ["nohidden"],
@@ -199,8 +201,14 @@ CURATED = {
                ["a", ":", "execute", ":", "x", ",", "+", "a"], [",", ":", "abort"], ["a", ":", "bogus"], ["a"],
                ["enter", ":", "put"], []],
     "--multi": [["3"], ["0"], ["a"], ["-1"]], "--sort": [["5"]],
-    "--border": [["sharp"], ["none"], ["bogus"], [], ["double"]],
-    "--color": [["fg", ":", "1"], ["bg", ":", "2"], ["fg", ":", "3", ",", "bg", ":", "5"], ["fg", ":", "256"], ["bogus"], []],
+    "--border": [["sharp"], ["none"], ["bogus"], [], ["double"], ["rounded"], ["bold"], ["block"], ["thinblock"],
+                 ["horizontal"], ["vertical"], ["top"], ["bottom"], ["left"], ["right"]],
+    "--tmux": [["center"], ["bottom", ",", "40", "%"], ["left", ",", "30"], ["80", "%", ",", "60", "%"], ["border-native"],
+               ["center", ",", "border-native"], ["top", ",", "80", "%", ",", "40", "%"], ["bogus"],
+               ["right", ",", "256", "%"], [], ["right", ",", "40", "%"], ["80", "%"],
+               ["center", ",", "80", "%", ",", "border-native"], ["up", ",", "10"], ["down"]],
+    "--color": [["fg", ":", "1"], ["bg", ":", "2"], ["fg", ":", "3", ",", "bg", ":", "5"], ["fg", ":", "256"], ["bogus"], [],
+                ["fg", ":", "-1"]],
 }
 POOLS = {   # options whose value grammar the specification decides for ANY sequence of these atoms
     "--tiebreak": ["length", "index", "begin", "end", "chunk", "pathname", ",", "bogus"],
@@ -209,7 +217,7 @@ POOLS = {   # options whose value grammar the specification decides for ANY sequ
     "--walker": ["file", "dir", "hidden", "follow", ",", "bogus"],
     "--expect": ["a", "x", "ctrl-a", "enter", "f2", "space", ",", "alt-x", "up", "tab", " ", ":", "+"],
 }
-OPTNUM, OPTSTR = ["--multi", "--sort"], ["--border", "--color"]
+OPTNUM, OPTSTR = ["--multi", "--sort"], ["--border", "--color", "--tmux"]
 BIND_KEYS = ["a", "x", "ctrl-a", "enter", "return", "f2", "alt-x", "space", "load", "change", "tab", "up", "down", ",", ":", "+",
              " ", "("]
 BIND_PLAIN = ["up", "down", "accept", "abort", "select-all", "toggle-down", "preview-up", "print-query",
@@ -359,7 +367,8 @@ def run_binary(fzf, inp, tmp):
         os.remove(os.path.join(tmp, f))
     sub = lambda s: s.replace("@T", tmp)
     env = vlib.go_env()
-    env.pop("NO_COLOR", None)
+    for k in ("NO_COLOR", "TMUX", "TMUX_PANE"):
+        env.pop(k, None)
     strs = inp["strs"]
     env["FZF_DEFAULT_OPTS"] = " ".join(shquote(sub(w)) for w in strs["env"])
     if inp["file"]:
@@ -414,6 +423,26 @@ def run_j_options(ctx):
     for i in inputs:
         i["strs"] = {k: [render(ctx.rng, w) for w in i[k]] for k in SOURCES}
     ninvalid = len(inputs)
+    # every value class of every valued option of the vocabulary, in every form, once through the real binary
+    tail = [{"k": "opt", "o": "--filter", "v": []}, {"k": "val", "o": "", "v": ["x"]}]
+    sweep = []
+    for opt, values in CURATED.items():
+        sweep.append([{"k": "opt", "o": opt, "v": []}])
+        for v in values:
+            sweep.append([{"k": "eq", "o": opt, "v": v}])
+            sweep.append([{"k": "opt", "o": opt, "v": []}, {"k": "val", "o": "", "v": v}])
+            if opt in SHORT and v:
+                sweep.append([{"k": "att", "o": SHORT[opt], "v": v}])
+    sweep += [[{"k": "opt", "o": f, "v": []}] for f in FLAGS]
+    nsweep = 0
+    for k, occ in enumerate(sweep):
+        src = SOURCES[k % 3] if occ[0]["o"] in ("--tmux", "--height") or k % 7 == 0 else "argv"
+        i = {"file": [], "env": [], "argv": []}
+        i[src] = occ
+        i["argv"] = i["argv"] + tail
+        i["strs"] = {s_: [render(ctx.rng, w) for w in i[s_]] for s_ in SOURCES}
+        inputs.append(i)
+        nsweep += 1
     inputs += [gen_j_input(ctx.rng) for _ in range(n)]
     recs = run_binaries(ctx, fzf, inputs)
     bad, _ = vlib.judge(ctx, "Judge_Options", "Judge_Options.cfg", recs, "options", workers=WORKERS, timeout=2400)
@@ -435,7 +464,8 @@ def run_j_options(ctx):
     ctx.cov["j_binary_runs"] = len(recs)
     ctx.cov["j_binary_exit_codes"] = {str(c): len([r for r in recs if r["exit"] == c]) for c in sorted({r["exit"] for r in recs})}
     ctx.cov["j_invalid_class_runs"] = ninvalid
-    ok = [r for r in recs[ninvalid:] if r["exit"] != 2]
+    ctx.cov["j_value_class_sweep_runs"] = nsweep
+    ok = [r for r in recs[ninvalid + nsweep:] if r["exit"] != 2]
     if ok:
         ctx.sample({"argv": ok[0]["strs"]["argv"], "env": ok[0]["strs"]["env"], "file": ok[0]["strs"]["file"],
                     "exit": ok[0]["exit"]})
